@@ -57,7 +57,27 @@ Definition denu (p : pop) (t : fty) (a : Z) : option Z :=
 Definition field_ok (f : pop) (t : fty) (lhs : Z -> option Z) : Prop :=
   forall a v v', in_ty_b t a = true -> lhs a = Some v -> denu f t a = Some v' -> v' = v.
 
+(* what may stand in a "replace by" field of peepBValOpInfo: nothing, a unary builtin, a
+   constant, the identity, a negated test *)
+Definition unary_like (f : pop) : bool :=
+  match f with
+  | OpNone | OpNeg | OpNext | OpPrev | OpIsZero | OpIsNeg | OpIsPos | OpZero | OpOne | OpMOne
+  | OpTrue | OpFalse | OpNonZero | OpNonNeg | OpNonPos | OpId => true
+  | _ => false
+  end.
+
+(* the unary builtins the rules may create a call of *)
+Definition creatable (p : pop) : bool :=
+  match p with
+  | OpNeg | OpNext | OpPrev | OpIsZero | OpIsNeg | OpIsPos
+  | OpPlus | OpMinus | OpEQ | OpNE | OpLT | OpLE => true
+  | _ => false
+  end.
+
 Definition op_ok (r : oprow) : Prop :=
+  unary_like (oleqr r) && unary_like (ol0 r) && unary_like (ol1 r) && unary_like (or0 r) && unary_like (or1 r) = true /\
+  (* the dual of a unary operation is not a binary one *)
+  ((forall t a b, den2 (odual r) t a b = None) \/ (forall t a, den1 (oop r) t a = None)) /\
   forall t,
     field_ok (oleqr r) t (fun a => den2 (oop r) t a a) /\
     field_ok (ol0 r) t (fun a => den2 (oop r) t 0 a) /\
@@ -69,7 +89,9 @@ Definition op_ok (r : oprow) : Prop :=
     (* binary dual: not (a op b) = b dual a *)
     (forall a b v v', in_ty_b t a = true -> in_ty_b t b = true ->
                       den2 (oop r) t a b = Some v -> den2 (odual r) t b a = Some v' ->
-                      v' = Z.b2z (negb (v =? 1))).
+                      v' = Z.b2z (negb (v =? 1))) /\
+    (* the dual of a binary operation exists wherever the operation does *)
+    (forall a b v, den2 (oop r) t a b = Some v -> odual r = OpNone \/ exists v', den2 (odual r) t b a = Some v').
 
 (* obligations of a row of foamBValOpInfoTable: a builtin of the specified class stands for
    the abstract operation of its row at the row's type; a builtin outside the class stands
@@ -84,5 +106,10 @@ Definition bv_ok (r : bvrow) : Prop :=
       \/
       (fst (sop_sig o) = [t] /\
        forall a, in_ty_b t a = true -> in_dom o [a] = true /\ den1 (bop r) t a = Some (spec o [a]))
-  | None => (forall a b, den2 (bop r) t a b = None) /\ (forall a, den1 (bop r) t a = None)
+  | None => (forall a b, den2 (bop r) t a b = None) /\ (forall a, den1 (bop r) t a = None) /\
+            creatable (bop r) && cmp_ty t = false
   end.
+
+(* the operations that stand for a constant: peepMakeUnaryOp builds the constant and DROPS the
+   operand; the C guards this with "arity 0 and the operand has a side effect -> no rewrite" *)
+Definition const_ops : list pop := [OpZero; OpOne; OpMOne; OpTrue; OpFalse].
